@@ -5,6 +5,7 @@ full / partially consumed / mid-iteration-disturbed process_iter(attrs?), cache_
 on cached objects; object identity (`is`) is checked against a reference model of the cache.
 Two concurrent iterators run under the deterministic scheduler.
 """
+import contextlib
 import re
 
 from vlib import harness
@@ -110,6 +111,9 @@ def gen_history(rng):
     return hist
 
 
+ODD_ROOT_ENTRIES = ["+7", "-1", "-7", "1_0", " 8", "9 ", "7\n", "0x10", "1e1", "7.0", "+0", "-0", "0b1"]
+
+
 def run_history(hist, acc):
     env = setup()
     ps, H = env["ps"], env["H"]
@@ -117,6 +121,13 @@ def run_history(hist, acc):
     viols = []
     nontrivial = False
     ctx = f"history={hist}"
+    if harness.chash(hist)[-1] in "0123":
+        # the procfs root holds more than PID directories; what is not a plain decimal number is no process, however much it
+        # looks like one to int()
+        for name in ODD_ROOT_ENTRIES:
+            w.t.rootfiles[name + "/x"] = b""
+        acc.count("histories_with_number_like_entries_in_the_procfs_root")
+        ctx += f" root_entries={ODD_ROOT_ENTRIES}"
     model = {}            # pid -> (object, inc) as the statement's cache
     ever = {}             # pid -> list of objects ever yielded
     flagged = set()       # pids flagged recycled by is_running() since the last iteration
@@ -150,7 +161,18 @@ def run_history(hist, acc):
                 w.apply(("vanish", op[1]))
             w.apply(("spawn", op[1], False))
 
-    with w:
+    try:
+        w.__enter__()
+    except Exception as e:  # noqa: BLE001
+        # the world's own first steps (boot_time(), one complete process_iter() pass over init and the harness) failed
+        try:
+            w.__exit__(None, None, None)
+        except Exception:  # noqa: BLE001
+            pass
+        acc.case(dict(hist=hist), True, [(f"process_iter_raised:{type(e).__name__}:first_pass", ctx + f" {e!r}")])
+        return
+    with contextlib.ExitStack() as _stack:
+        _stack.push(w.__exit__)
         for idx, op in enumerate(hist):
             k = op[0]
             if k in ("spawn", "exit", "reap", "vanish", "thread", "respawn", "otheruser"):
@@ -511,6 +533,10 @@ def run_threads_case(case, acc):
         finally:
             sys.setswitchinterval(old)
             stop.set()
+        if hung:
+            # somebody never came back (holding who knows what): nothing else is asked of the library in this worker
+            acc.inconclusive = f"free-running iterators seed={case['seed']} i={case['i']}: a thread did not finish within 120 s"
+            raise RuntimeError(acc.inconclusive)
         # quiescent epilogue: identity across two sequential iterations, and exactly the listed pids
         seq1 = list(ps.process_iter())
         seq2 = list(ps.process_iter())
